@@ -14,9 +14,12 @@
 (* console operations the module documents (arp.set, del arp[ip]).           *)
 (*                                                                          *)
 (* Named deviations (Strict = FALSE only), see notes/X05.md:                  *)
+(*  ArpInVlanMangled   the answer to an 802.1Q-tagged request carries the    *)
+(*                     tag, but the type after the tag is 0x8100 again       *)
+(*                     instead of ARP: nobody can read it;                   *)
 (*  ArpInDemoteStatic  an ARP from the owner of a STATIC entry (same MAC)    *)
 (*                     replaces it by a learned one, which then expires;     *)
-(*  ArpInAnswerStale   a request is answered from an entry that is older     *)
+(*  ArpInUseStale      a request is answered from an entry that is older     *)
 (*                     than the timeout but was not swept yet (the Entry     *)
 (*                     docstring says such a request is flooded).            *)
 EXTENDS Naturals, Integers, Sequences, FiniteSets, TLC, Json, SequencesExt
@@ -75,9 +78,12 @@ Init == /\ now = 0 /\ timer = Period
         /\ held = 0 /\ up = FALSE
         /\ last = NoObs /\ hist = <<>>
 
-Log(a, args, exp) ==
+\* `via` names the spec action that produced the step (not compared with anything; used to count what the
+\* replayed behaviours exercised)
+LogV(a, args, exp, via) ==
   /\ last' = [a |-> a, args |-> args, exp |-> exp]
-  /\ hist' = Append(hist, [a |-> a, args |-> args, exp |-> exp])
+  /\ hist' = Append(hist, [a |-> a, args |-> args, exp |-> exp, via |-> via])
+Log(a, args, exp) == LogV(a, args, exp, a)
 
 \* ConnectionUp: a flow that sends every ARP packet to the controller, below the default priority
 ConnUp ==
@@ -103,19 +109,22 @@ LearnTbl(src, strict) ==
                                        ELSE [tbl EXCEPT ![src.spa] = Learned(src.sha, now)])
        ELSE IF old.static /\ strict THEN tbl                            \* intent: static entries stay static
        ELSE [tbl EXCEPT ![src.spa] = Learned(src.sha, now)]             \* "update timestamp"
-\* an entry the request would be answered from
+\* the outcome hinges on an entry that is older than Timeout but was not swept yet: a request would be answered
+\* from it, or flooding would be suppressed because of it
 Stale(src, op, tpa) == LET t == LearnTbl(src, FALSE) IN
-  Valid(src) /\ op = 1 /\ Known(t, tpa) /\ Expired(t[tpa], now)
+  Known(t, tpa) /\ Expired(t[tpa], now) /\ ((Valid(src) /\ op = 1) \/ ~t[tpa].flood)
 
 ArpArgs(src, op, tpa, vl) == [p |-> src.p, es |-> src.es, sha |-> src.sha, spa |-> src.spa, op |-> op, tpa |-> tpa, vl |-> vl]
 
-Handle(src, op, tpa, vl, strict) ==
+Handle(src, op, tpa, vl, strict, via) ==
   LET s == Alloc
       t == LearnTbl(src, strict)
       usable == Known(t, tpa) /\ (strict => ~Expired(t[tpa], now))
       answer == Valid(src) /\ op = 1 /\ usable
       mac == IF t[tpa].mac = "SW" THEN "sw" ELSE t[tpa].mac
-      reply == [k |-> Kind(vl), op |-> 2, es |-> "sw", ed |-> src.sha, sha |-> mac, spa |-> tpa, tha |-> src.sha, tpa |-> src.spa]
+      good == [k |-> Kind(vl), op |-> 2, es |-> "sw", ed |-> src.sha, sha |-> mac, spa |-> tpa, tha |-> src.sha, tpa |-> src.spa]
+      \* what the code sends for a tagged request: <tag 5.3> <type 0x8100> <ARP body> - not an ARP packet
+      reply == IF vl /\ ~strict THEN [NoFrame EXCEPT !.k = "other:8100", !.es = "sw", !.ed = src.sha] ELSE good
       fq1 == IF Valid(src) /\ op = 1 /\ ~usable THEN [fq EXCEPT ![tpa] = now] ELSE fq
       flood == IF usable THEN t[tpa].flood ELSE TRUE
       msgs == IF answer THEN <<Po(0, src.p, <<Out(INPORT)>>, reply)>>
@@ -126,63 +135,74 @@ Handle(src, op, tpa, vl, strict) ==
              ELSE {}
       \* an answered (or swallowed) packet-in keeps its buffer for ever; a flooded one gives it back
       held1 == IF s # 0 /\ (answer \/ ~flood) THEN held + 1 ELSE held IN
+  /\ up
   /\ tbl' = t /\ fq' = fq1 /\ held' = held1
   /\ UNCHANGED <<now, timer, up>>
-  /\ Log("ArpIn", ArpArgs(src, op, tpa, vl),
-         [pin |-> s, msgs |-> msgs, out |-> out, errs |-> 0, halted |-> Eat, st |-> St(t, fq1, now)])
+  /\ LogV("ArpIn", ArpArgs(src, op, tpa, vl),
+          [pin |-> s, msgs |-> msgs, out |-> out, errs |-> 0, halted |-> Eat, st |-> St(t, fq1, now)], via)
 
-ArpInPlain(src, op, tpa, vl)        == ~Demotes(src) /\ ~Stale(src, op, tpa) /\ Handle(src, op, tpa, vl, FALSE)
+\* a tagged request that the code answers
+Mangles(src, op, tpa, vl) == LET t == LearnTbl(src, FALSE) IN vl /\ Valid(src) /\ op = 1 /\ Known(t, tpa)
+Deviates(src, op, tpa, vl) == Demotes(src) \/ Stale(src, op, tpa) \/ Mangles(src, op, tpa, vl)
+ArpInPlain(src, op, tpa, vl)        == ~Deviates(src, op, tpa, vl) /\ Handle(src, op, tpa, vl, FALSE, "ArpInPlain")
 \* DEVIATIONS (what the code does)
-ArpInDemoteStatic(src, op, tpa, vl) == ~Strict /\ Demotes(src) /\ Handle(src, op, tpa, vl, FALSE)
-ArpInAnswerStale(src, op, tpa, vl)  == ~Strict /\ ~Demotes(src) /\ Stale(src, op, tpa) /\ Handle(src, op, tpa, vl, FALSE)
+ArpInDemoteStatic(src, op, tpa, vl) == ~Strict /\ Demotes(src) /\ Handle(src, op, tpa, vl, FALSE, "ArpInDemoteStatic")
+ArpInUseStale(src, op, tpa, vl)  == ~Strict /\ ~Demotes(src) /\ Stale(src, op, tpa) /\ Handle(src, op, tpa, vl, FALSE, "ArpInUseStale")
+ArpInVlanMangled(src, op, tpa, vl)  == ~Strict /\ ~Demotes(src) /\ ~Stale(src, op, tpa) /\ Mangles(src, op, tpa, vl)
+                                       /\ Handle(src, op, tpa, vl, FALSE, "ArpInVlanMangled")
 \* documented intent
-ArpInStrict(src, op, tpa, vl)       == Strict /\ (Demotes(src) \/ Stale(src, op, tpa)) /\ Handle(src, op, tpa, vl, TRUE)
+ArpInStrict(src, op, tpa, vl)       == Strict /\ Deviates(src, op, tpa, vl)
+                                       /\ Handle(src, op, tpa, vl, TRUE, IF Demotes(src) THEN "ArpInStrict/static-kept"
+                                                                         ELSE IF Stale(src, op, tpa) THEN "ArpInStrict/stale-ignored"
+                                                                         ELSE "ArpInStrict/vlan-reply")
 ArpIn(src, op, tpa, vl) == \/ ArpInPlain(src, op, tpa, vl) \/ ArpInDemoteStatic(src, op, tpa, vl)
-                           \/ ArpInAnswerStale(src, op, tpa, vl) \/ ArpInStrict(src, op, tpa, vl)
+                           \/ ArpInUseStale(src, op, tpa, vl) \/ ArpInVlanMangled(src, op, tpa, vl)
+                           \/ ArpInStrict(src, op, tpa, vl)
 
 \* a packet that is not ARP: not touched, not eaten (its buffer is nobody's business here)
 OtherIn(p) ==
-  /\ p \in Ports
+  /\ up /\ p \in Ports
   /\ held' = (IF held < NBuf THEN held + 1 ELSE held)
   /\ UNCHANGED <<now, timer, tbl, fq, up>>
   /\ Log("OtherIn", [p |-> p], [pin |-> Alloc, msgs |-> <<>>, out |-> {}, errs |-> 0, halted |-> FALSE, st |-> St(tbl, fq, now)])
 
 \* console: arp.set(ip, mac, static) / del arp[ip]
 Set(ip, mac, static) ==
+  /\ up
   /\ tbl' = [tbl EXCEPT ![ip] = [Entry(mac, static, now) EXCEPT !.static = static]]
   /\ UNCHANGED <<now, timer, fq, held, up>>
   /\ Log("Set", [ip |-> ip, mac |-> mac, static |-> static],
          [pin |-> 0, msgs |-> <<>>, out |-> {}, errs |-> 0, halted |-> FALSE, st |-> St(tbl', fq, now)])
 Del(ip) ==
-  /\ Known(tbl, ip)
+  /\ up /\ Known(tbl, ip)
   /\ tbl' = [tbl EXCEPT ![ip] = NoEntry]
   /\ UNCHANGED <<now, timer, fq, held, up>>
   /\ Log("Del", [ip |-> ip], [pin |-> 0, msgs |-> <<>>, out |-> {}, errs |-> 0, halted |-> FALSE, st |-> St(tbl', fq, now)])
 
 \* ---- time
 Advance(d) ==
-  /\ now + d < timer
+  /\ up /\ now + d < timer
   /\ now' = now + d
   /\ UNCHANGED <<timer, tbl, fq, held, up>>
-  /\ Log("Tick", [d |-> d], [pin |-> 0, msgs |-> <<>>, out |-> {}, errs |-> 0, halted |-> FALSE, st |-> St(tbl, fq, now + d)])
+  /\ LogV("Tick", [d |-> d], [pin |-> 0, msgs |-> <<>>, out |-> {}, errs |-> 0, halted |-> FALSE, st |-> St(tbl, fq, now + d)], "Advance")
 
 \* the timer fires: learned entries older than Timeout and failed queries older than Timeout are dropped
 TimerFires(d) ==
   LET fire == timer + ((now + d - timer) \div Period) * Period
       t == [ip \in IPs |-> IF Known(tbl, ip) /\ Expired(tbl[ip], fire) THEN NoEntry ELSE tbl[ip]]
       f == [ip \in IPs |-> IF fq[ip] >= 0 /\ fire - fq[ip] > Timeout THEN 0 - 1 ELSE fq[ip]] IN
-  /\ now + d >= timer
+  /\ up /\ now + d >= timer
   /\ now' = now + d /\ timer' = fire + Period
   /\ tbl' = t /\ fq' = f
   /\ UNCHANGED <<held, up>>
-  /\ Log("Tick", [d |-> d], [pin |-> 0, msgs |-> <<>>, out |-> {}, errs |-> 0, halted |-> FALSE, st |-> St(t, f, now + d)])
+  /\ LogV("Tick", [d |-> d], [pin |-> 0, msgs |-> <<>>, out |-> {}, errs |-> 0, halted |-> FALSE, st |-> St(t, f, now + d)], "TimerFires")
 
 NextArp   == \E src \in ArpSrcs, op \in {1, 2}, tpa \in Targets, vl \in VLs : ArpIn(src, op, tpa, vl)
 NextOther == \E p \in Ports : OtherIn(p)
 NextCons  == \/ \E ip \in ConsIPs, m \in SetMacs, s \in BOOLEAN : Set(ip, m, s)
              \/ \E ip \in ConsIPs : Del(ip)
 NextTime  == \E d \in Deltas : Advance(d) \/ TimerFires(d)
-Next == ConnUp \/ (up /\ (NextArp \/ NextOther \/ NextCons \/ NextTime))
+Next == ConnUp \/ NextArp \/ NextOther \/ NextCons \/ NextTime
 Spec == Init /\ [][Next]_vars
 
 ----------------------------------------------------------------------------
@@ -203,7 +223,8 @@ StaticsStay ==
         \/ ~Strict /\ last'.a = "ArpIn" /\ last'.args.spa = ip /\ last'.args.sha = tbl[ip].mac
            /\ tbl'[ip] = Learned(tbl[ip].mac, now)]_vars
 
-Replies(msgs) == {j \in DOMAIN msgs : msgs[j].data.op = 2 /\ msgs[j].data.es = "sw"}
+\* answers leave through the port the request came from; floods do not
+Replies(msgs) == {j \in DOMAIN msgs : msgs[j].acts = <<Out(INPORT)>>}
 \* a request for a known address is answered with the right MAC - and only then
 AnswerRight ==
   [][last'.a = "ArpIn" =>
@@ -213,9 +234,11 @@ AnswerRight ==
        /\ (r # {}) <=> ok
        /\ Len(last'.exp.msgs) <= 1
        /\ \A j \in r : LET m == last'.exp.msgs[j] IN
-            /\ m.data.sha = (IF tbl'[a.tpa].mac = "SW" THEN "sw" ELSE tbl'[a.tpa].mac)
-            /\ m.data.spa = a.tpa /\ m.data.tpa = a.spa /\ m.data.tha = a.sha /\ m.data.ed = a.sha
-            /\ m.data.k = Kind(a.vl) /\ m.inp = a.p /\ m.acts = <<Out(INPORT)>>
+            /\ m.inp = a.p /\ m.buf = 0 /\ m.data.es = "sw" /\ m.data.ed = a.sha
+            /\ IF a.vl /\ ~Strict THEN m.data.k = "other:8100"            \* the deviation: not an ARP packet at all
+               ELSE /\ m.data.k = Kind(a.vl) /\ m.data.op = 2
+                    /\ m.data.sha = (IF tbl'[a.tpa].mac = "SW" THEN "sw" ELSE tbl'[a.tpa].mac)
+                    /\ m.data.spa = a.tpa /\ m.data.tpa = a.spa /\ m.data.tha = a.sha
        \* an unanswered ARP is flooded unless it asks for an address marked "do not flood"
        /\ (r = {}) => (Len(last'.exp.msgs) = 1) <=> (~Known(tbl', a.tpa) \/ tbl'[a.tpa].flood \/ (Strict /\ Expired(tbl'[a.tpa], now)))]_vars
 \* eat_packets: every ARP packet is halted, nothing else is
